@@ -76,7 +76,7 @@ def cases(tier, rng):
         for nfiles in (1, 2, 3):
             for pos in range(nfiles):
                 combos = list(itertools.product(GEN_SETS, [False, True], ["none", "all", "lint"], [None, "out"], ["human", "json"]))
-                k = 10 if tier == "quick" else 60
+                k = 10 if tier == "quick" else len(combos)   # thorough: every combination
                 # always include the plain combination with a healthy generator; sample the rest
                 chosen = [(("ok2",), False, "none", None, "human"), (("ok2", "fail"), True, "lint", "out", "json")] + rng.sample(combos, k)
                 for c in chosen:
